@@ -49,7 +49,7 @@ theorem write_len (S : Suite) (hE : S.EncLen) (hP : S.PubLen) (hs : HS) (p : Byt
   | ok k =>
     simp only [hr, Prod.mk.injEq, Res.ok.injEq] at h
     obtain ⟨rfl, rfl, rfl, rfl⟩ := h
-    obtain ⟨a, b, c, d, e⟩ := writeInner_ok S hE hP hs p cap k hw hr
+    obtain ⟨a, b, c, d, e⟩ := writeInner_ok_len S hE hP hs p cap k hw hr
     refine ⟨a, b, c, ?_, ?_, ?_⟩
     · rw [b]; unfold msgLen; split <;> omega
     · rw [b]; unfold msgLen; split <;> omega
